@@ -221,6 +221,55 @@ func (s *LState) root(path string) string {
 	return path
 }
 
+// killName renames every held lock / alias target / deferred release rooted at key to a fresh name.
+func (s *LState) killName(key string) {
+	hit := false
+	match := func(p string) bool { return p == key || strings.HasPrefix(p, key+".") }
+	for h := range s.held {
+		if match(h) {
+			hit = true
+		}
+	}
+	for _, v := range s.alias {
+		if match(v) {
+			hit = true
+		}
+	}
+	if !hit {
+		return
+	}
+	fresh := key + "'"
+	for {
+		clash := false
+		for h := range s.held {
+			if h == fresh || strings.HasPrefix(h, fresh+".") {
+				clash = true
+			}
+		}
+		if !clash {
+			break
+		}
+		fresh += "'"
+	}
+	ren := func(p string) string { return fresh + p[len(key):] }
+	for h, m := range s.held {
+		if match(h) {
+			delete(s.held, h)
+			s.held[ren(h)] = m
+		}
+	}
+	for a, v := range s.alias {
+		if match(v) {
+			s.alias[a] = ren(v)
+		}
+	}
+	for i, d := range s.deferred {
+		if match(d[2:]) {
+			s.deferred[i] = d[:2] + ren(d[2:])
+		}
+	}
+}
+
 // Holds reports whether the lock on path is held (any mode, or write mode when needW).
 func (s *LState) Holds(path string, needW bool) bool {
 	m, ok := s.held[s.root(path)]
@@ -353,6 +402,14 @@ func (lw *LockWalk) Run() {
 		}
 		dead := false
 		for _, in := range it.b.Instrs {
+			// executing the defining instruction of an SSA register kills that name: a lock still held
+			// under it belongs to the value of an earlier loop iteration and lives on under a fresh name
+			// (reachable through the phi / cell aliases only)
+			if v, ok := in.(ssa.Value); ok {
+				if _, isPhi := in.(*ssa.Phi); !isPhi {
+					st.killName("v:" + v.Name())
+				}
+			}
 			if lw.OnInstr != nil {
 				lw.OnInstr(in, st)
 			}
